@@ -5,3 +5,4 @@ pub mod trace;
 pub mod world;
 pub mod ledger;
 pub mod ledger_run;
+pub mod fullnode;
